@@ -9,3 +9,7 @@ open Neutrino.BM
 #print axioms C01_chain_valid
 #print axioms C01_checkpoints_passed
 #print axioms BM.inv_step_full
+#print axioms C01_ancestor_correct
+#print axioms Neutrino.HL.ancestor_correct
+#print axioms Neutrino.HL.ancestor_live
+#print axioms Neutrino.HL.reset_inv
